@@ -22,6 +22,7 @@ def run(ctx, sess):
     ctx.rule('C15.1', 'the first block of a signal is always stored: the definition of omit_data that reaches the store/omit branch is masked with data_head.offset != 0')
     ctx.rule('C15.7', 'the reported length does not depend on omission: a block is omitted only when it is full (omit_data is masked with entry_count >= data_length); the count of a partial block is stored only in the block itself')
     ctx.rule('C15.10', 'only constant blocks are left out automatically: the byte every byte of the block is compared with is the first sample replicated over the byte, for every sub-byte width (traced: width 1, 4, 8 x first bytes whose samples differ) - a block whose bytes are equal but whose samples are not is stored')
+    ctx.rule('C15.12', 'a block is left out only on request or when a predicate that examines every byte of the block against a reference said it is constant (shared with C09.7)')
     ctx.rule('C15.11', 'samples of stored blocks are what was read: the core read buffer is consumed only after a checked read or a reconstruction of that very block on the same path (shared with C04.8)')
     ctx.rule('C15.9', 'summary entries do not depend on omission: in the level-1 and level-n reductions the chunk position handed in (0 for an omitted block) flows only into the index entry; it is not used in any condition or in any value of a summary entry')
     ctx.rule('C15.2', 'summaries do not depend on omission: from both arms of the omit branch every success path passes the level-1 summary, the timestamp advance and the count reset; the summary path never reads the file')
@@ -32,7 +33,16 @@ def run(ctx, sess):
     f, br = first_block_stored(ctx, P, 'C15.1')
     full_block_only(ctx, P, 'C15.7')
     position_flow_rule(ctx, P)
-    const_reference_rule(ctx, P)
+    from .common import relay as _relay
+    from . import c09 as _src_c09
+    _relay(ctx, sess, _src_c09.run, {'C09.7': 'C15.12'}, minimum=1)
+    try:
+        const_reference_rule(ctx, P)
+    except AnalysisBroken as ex:
+        if any(not o['ok'] for o in ctx.obligations):
+            ctx.note('C15.10 not evaluated (%s); the omission criterion already fails C15.12' % ex)
+        else:
+            raise
     from .common import relay
     from . import c04 as _src_c04
     from .c04 import _freshness
